@@ -13,6 +13,8 @@ BGD == INSTANCE BindGroupData
 TC == INSTANCE TypeClosure
 L == INSTANCE Layout
 ST == INSTANCE Structs
+RT == INSTANCE RustTypes
+RUN == INSTANCE Runtime
 
 Rec == ndJsonDeserialize(IOEnv.TRACE)
 Enforce == IOEnv.ENFORCE
@@ -175,6 +177,59 @@ C09(c, o) ==
                  \cup SameOrNew(m, kAll, o.tokens_sha, "formatter / validation option changed the program"),
        m |-> MPut(MPut(MPut(m, kRest, o.out.rest_sha), kStructs, o.out.structs_sha), kAll, o.tokens_sha) ]
 
+(* ------------------------------------------------------------------ C06 *)
+StructFieldFails(S, st, mv) ==
+  LET n == st.name IN
+  IF n \notin StructNames(S) THEN {} ELSE
+  LET ms == ST!Fields(S, n)
+      fs == st.fields
+  IN Chk([ i \in DOMAIN fs |-> fs[i].name ] = [ i \in DOMAIN ms |-> ms[i].name ],
+         "fields of " \o n \o " are " \o ToJson([ i \in DOMAIN fs |-> fs[i].name ]) \o " but the WGSL members (without builtins) are " \o ToJson([ i \in DOMAIN ms |-> ms[i].name ]))
+     \cup (IF Len(fs) = Len(ms)
+           THEN UNION { Chk(RT!FieldOk(S, ms[i], fs[i], mv), "field " \o n \o "." \o ms[i].name \o " has Rust type " \o fs[i].ty \o " which does not denote WGSL " \o ToJson(ms[i].ty) \o " under " \o mv) : i \in DOMAIN ms }
+                \cup UNION { Chk(fs[i].pub, "field " \o n \o "." \o fs[i].name \o " is not public") : i \in DOMAIN fs }
+           ELSE {})
+C06(c, o) ==
+  IF ~(HasS(c) /\ ValidAll(o) /\ Projected(o)) THEN NoVerdict ELSE
+  [ dom |-> TRUE, fails |-> UNION { StructFieldFails(c.S, o.out.structs[i], c.opts.mv) : i \in DOMAIN o.out.structs } ]
+
+(* ------------------------------------------------------------------ C05 (numbers carried by the assertions) *)
+AssertSet(st) == { [ field |-> (IF Has(a, "field") THEN a.field ELSE "<size>"), n |-> a.n ] : a \in Range(st.asserts) }
+ExpectedAssertSet(S, n) ==
+  { [ field |-> x.field, n |-> Str(x.n) ] : x \in Range(ST!AssertOffsets(S, n)) } \cup { [ field |-> "<size>", n |-> Str(L!StructSize(S, n)) ] }
+NagaAssertSet(o, n) ==
+  LET lay == o.oracle.layout[n] IN
+  { [ field |-> lay.offsets[i].name, n |-> Str(lay.offsets[i].off) ] : i \in DOMAIN lay.offsets } \cup { [ field |-> "<size>", n |-> Str(lay.size) ] }
+C05Struct(S, o, st) ==
+  LET n == st.name IN
+  IF n \notin StructNames(S) \/ ~ST!HostShareable(S, n) THEN {} ELSE
+  Chk(Len(st.asserts) > 0, "host-shareable struct " \o n \o " carries no layout assertions although bytemuck host-shareable derives are on")
+  \cup (IF Len(st.asserts) > 0 THEN
+          Chk(AssertSet(st) = ExpectedAssertSet(S, n), "layout assertions of " \o n \o " are " \o ToJson(AssertSet(st)) \o " but the WGSL layout rules give " \o ToJson(ExpectedAssertSet(S, n)))
+          \cup Chk(Len(st.asserts) = Cardinality(AssertSet(st)), "duplicate layout assertion on " \o n)
+          \cup Chk({ x \in NagaAssertSet(o, n) : x.field \in { y.field : y \in ExpectedAssertSet(S, n) } } = ExpectedAssertSet(S, n),
+                   "ORACLE naga layout of " \o n \o " differs from Layout.tla: " \o ToJson(NagaAssertSet(o, n)) \o " vs " \o ToJson(ExpectedAssertSet(S, n)))
+        ELSE {})
+C05(c, o) ==
+  IF ~(HasS(c) /\ ValidAll(o) /\ Projected(o) /\ c.opts.bmh) THEN NoVerdict ELSE
+  [ dom |-> TRUE, fails |-> UNION { C05Struct(c.S, o, o.out.structs[i]) : i \in DOMAIN o.out.structs } ]
+
+(* ------------------------------------------------------------------ compiled / executed modules *)
+Compiled(o) == Has(o, "compile") /\ o.compile.outcome = "ok"
+RtOf(o, p) == IF Has(o, "rt") THEN SelectSeq(o.rt, LAMBDA e : e.probe = p) ELSE << >>
+ProbeFail(o, p) == IF Has(o, "compile") THEN { x.message : x \in { y \in Range(o.compile.probe_fail) : y.probe = p } } ELSE {}
+
+(* ------------------------------------------------------------------ C04 *)
+C04(c, o) ==
+  IF ~(HasS(c) /\ ValidAll(o) /\ RetOk(o) /\ Compiled(o) /\ Resources(c.S) # << >>) THEN NoVerdict ELSE
+  LET evs == RtOf(o, "bindgroups") IN
+  [ dom |-> TRUE, fails |->
+      { "the generated bind group API cannot be used as documented: " \o m : m \in ProbeFail(o, "bindgroups") }
+      \cup (IF ProbeFail(o, "bindgroups") = {} THEN
+              Chk(evs # << >>, "no bind group API although the shader declares resources")
+              \cup RUN!RunFails(c.S, evs) \cup RUN!FieldFails(c.S, evs)
+            ELSE {}) ]
+
 (* ------------------------------------------------------------------ C17 *)
 Renders(o) == Has(o, "renders") /\ o.renders.to_string.ok /\ o.renders.to_string_with_path.ok
 C17(c, o) ==
@@ -226,6 +281,9 @@ Judge0(c, o) ==
     [] Enforce = "C08" -> C08(c, o)
     [] Enforce = "C20" -> C20(c, o)
     [] Enforce = "C13" -> C13(c, o)
+    [] Enforce = "C06" -> C06(c, o)
+    [] Enforce = "C05" -> C05(c, o)
+    [] Enforce = "C04" -> C04(c, o)
     [] OTHER -> NoVerdict
 
 Stateless(r, c) == [ dom |-> r.dom, fails |-> r.fails, m |-> MemoFor(c) ]
